@@ -16,7 +16,7 @@ try:
         out = p.stdout.decode()
         v = [l for l in out.splitlines() if l.startswith("VIOLATION")]
         res[c] = "DETECTED" if v and p.returncode == 1 else ("BROKEN" if p.returncode not in (0, 1) else "MISSED")
-        print(c, res[c], (v[0] if v else ""), flush=True)
+        print(c, res[c], (v[0] if v else ""), ("[%d VIOLATION lines, %d with a failing input]" % (len(v), sum(1 for l in v if not l.endswith("no-failing-input-found"))) if v else ""), flush=True)
         if v:
             for l in out.splitlines():
                 if l.startswith("  ->"):
